@@ -10,6 +10,7 @@ mod rng;
 mod sink;
 mod trace;
 mod traces;
+mod xver;
 
 use std::panic;
 
@@ -56,6 +57,12 @@ fn main() {
         let mut out = Vec::new();
         proguard::ProguardCache::write(&proguard::ProguardMapping::new(&src), &mut out).expect("write");
         std::fs::write(&args[3], out).expect("output");
+        return;
+    }
+    if args[1] == "uuid-of" {
+        let src = std::fs::read(&args[2]).expect("input file");
+        let id = proguard::ProguardMapping::new(&src).uuid();
+        println!("{}", id.as_bytes().iter().map(|b| format!("{b:02x}")).collect::<String>());
         return;
     }
     let code = match args[1].as_str() {
